@@ -7,23 +7,44 @@ import Earverif.Proofs.C17
 
 namespace Earverif.Bw64
 
+/-- **Plain RIFF file whose `data` header holds the placeholder.**  Any byte string that consists of a RIFF/WAVE
+header, well-formed chunks `cs` (none of them a placeholder header), then the eight bytes `data` + `0xFFFFFFFF` and
+*anything whatsoever* after them (`rest`: no bytes, fewer than 2^32 - 1, exactly 2^32 - 1, more; any content) is
+rejected by the reader with "data chunk size has not been set; the file was not closed properly"
+(the `elif` added to `_read_chunk_header` by commit 61d37f4). -/
+theorem riff_placeholder_rejected (cs : List Chunk) (hok : ∀ c ∈ cs, c.OK none) (s4 rest f : Bytes) (hs : s4.length = 4)
+    (hf : f = idRIFF ++ (s4 ++ (idWAVE ++ (encAll cs ++ (idData ++ (ffff ++ rest)))))) :
+    readFile f = .error .dataPlaceholder := by
+  have hhead : readHead f = .ok (idRIFF, none, 12) := readHead_riff hf hs
+  have hf' : f = (idRIFF ++ (s4 ++ idWAVE)) ++ (encAll cs ++ (idData ++ (ffff ++ rest))) := by rw [hf]; simp
+  have h12 : (idRIFF ++ (s4 ++ idWAVE)).length = 12 := by simp [idRIFF, idWAVE, hs]
+  have hle := length_le_encAll cs (fun c hc => (hok c hc).idLen)
+  have hfl : f.length = 12 + (encAll cs).length + 8 + rest.length := by
+    rw [hf']; simp [idRIFF, idWAVE, idData, ffff, hs]; omega
+  obtain ⟨fuel, hfuel⟩ : ∃ k, f.length + 1 = cs.length + (k + 1) := ⟨f.length - cs.length, by omega⟩
+  have hw := walk_chunks_then none cs hok _ f _ (fuel + 1) [] [] hf'
+  rw [h12] at hw
+  have hh := readChunkHeader_placeholder (f := f) (pre := idRIFF ++ (s4 ++ idWAVE) ++ encAll cs) (rest := rest)
+    (by rw [hf']; simp)
+  rw [List.length_append, h12] at hh
+  simp only [readFile, hhead, hfuel, hw]
+  rw [readChunks_placeholder hh]
+
 /-- **C17 (unfinished files).**  The buffer left behind by a writer that was never closed — after any
 history of `write` and setter calls, whatever chunks were given to the constructor or are still pending,
-with fewer than 2^32 - 1 data bytes — is rejected by the reader: the `data` header still carries the
-placeholder size `0xFFFFFFFF`, which ends after the end of the file. -/
+with or without `forceBw64` (an unclosed buffer always starts with `RIFF`: only `close()` rewrites the header),
+and **any amount of data** — is rejected by the reader: the `data` header still carries the placeholder size
+`0xFFFFFFFF`, which `_read_chunk_header` refuses in a plain RIFF file ("data chunk size has not been set; the
+file was not closed properly").
+
+(Before commit 61d37f4 the reader had no such test and relied on the placeholder chunk ending after the end of
+the file; this theorem then needed `(dataOf ops).length < 2^32 - 1`, and the reader model accepted unfinished
+files with `2^32 - 1` data bytes and walked into the sample bytes beyond `2^32`.  The defect was found by this
+check (sparse-file probe `big_unclosed_probe` in harness/c17.py) and repaired in /repo.) -/
 theorem C17_unclosed (fmt : Fmt) (c0 : Option (List ChnaEntry)) (a0 b0 : Option Bytes) (force : Bool)
-    (ops : List WOp) (hc0 : ChnaOK c0) (ha0 : BytesOK a0) (hb0 : BytesOK b0)
-    (hdata : (dataOf ops).length < 2 ^ 32 - 1) :
-    readFile (unclosedFile fmt c0 a0 b0 force ops) = .error .chunkEnd := by
-  rw [unclosedFile_layout]
-  generalize hfile : head0 fmt ++ (preB c0 a0 b0 ++ (idData ++ (ffff ++ dataOf ops))) = f
+    (ops : List WOp) (hc0 : ChnaOK c0) (ha0 : BytesOK a0) (hb0 : BytesOK b0) :
+    readFile (unclosedFile fmt c0 a0 b0 force ops) = .error .dataPlaceholder := by
   have hds : ∀ d, (none : Option Ds64) = some d → d.table = [] := by intro d hd; cases hd
-  have hf : f = (idRIFF ++ (ffff ++ idWAVE)) ++
-      (encAll (junkC :: fmtC fmt :: preC c0 a0 b0) ++ (idData ++ (ffff ++ dataOf ops))) := by
-    rw [← hfile, preB_eq hc0, head0, fmtChunk_eq, junkChunk_eq]; simp
-  have hhead : readHead f = .ok (idRIFF, none, 12) :=
-    readHead_riff (s4 := ffff)
-      (rest := encAll (junkC :: fmtC fmt :: preC c0 a0 b0) ++ (idData ++ (ffff ++ dataOf ops))) (by rw [hf]; simp) rfl
   have hok : ∀ c ∈ junkC :: fmtC fmt :: preC c0 a0 b0, c.OK none := by
     intro c hc
     rcases List.mem_cons.1 hc with rfl | hc
@@ -31,144 +52,104 @@ theorem C17_unclosed (fmt : Fmt) (c0 : Option (List ChnaEntry)) (a0 b0 : Option 
     · rcases List.mem_cons.1 hc with rfl | hc
       · exact fmtC_ok none hds fmt
       · exact preC_ok none hds hc0 ha0 hb0 c hc
-  have hle := length_le_encAll _ (fun c hc => (hok c hc).idLen)
-  have hfl : f.length = 12 + (encAll (junkC :: fmtC fmt :: preC c0 a0 b0)).length + 8 + (dataOf ops).length := by
-    rw [hf]; simp [idRIFF, ffff, idWAVE, idData]; omega
-  obtain ⟨fuel, hfuel⟩ : ∃ k, f.length + 1 = (junkC :: fmtC fmt :: preC c0 a0 b0).length + (k + 1) :=
-    ⟨f.length - (junkC :: fmtC fmt :: preC c0 a0 b0).length, by omega⟩
-  have hw := walk_chunks_then none _ hok _ f _ (fuel + 1) [] [] hf
-  have h12 : (idRIFF ++ (ffff ++ idWAVE)).length = 12 := rfl
-  rw [h12] at hw
-  have hh := readChunkHeader_hdr (f := f) (pre := idRIFF ++ (ffff ++ idWAVE) ++ encAll (junkC :: fmtC fmt :: preC c0 a0 b0))
-    (id := idData) (s4 := ffff) (rest := dataOf ops) none (by rw [hf]; simp) rfl rfl (by decide)
-  rw [List.length_append, h12] at hh
-  have hffff : fromLE ffff = 4294967295 := by decide
-  have hh' : readChunkHeader f none (12 + (encAll (junkC :: fmtC fmt :: preC c0 a0 b0)).length) =
-      .hdr idData 4294967295 := hh.trans (congrArg _ hffff)
-  simp only [readFile, hhead, hfuel, hw]
-  rw [readChunks_chunkEnd hh' (by omega) (by omega)]
+  refine riff_placeholder_rejected _ hok ffff (dataOf ops) _ rfl ?_
+  rw [unclosedFile_layout, preB_eq hc0, head0, fmtChunk_eq, junkChunk_eq]; simp
 
-/-! ### the excluded point of `C17_unclosed`: 2^32 - 1 or more data bytes
+/-- **Unfinished *and* truncated.**  Every prefix (the whole string included) of a plain RIFF file whose chunks
+`cs` contain no `data` chunk and are followed by the placeholder `data` header is rejected: cut inside the 12-byte
+header `struct.error`; cut inside a chunk of `cs` "chunk ends after the end of the file", or — cut inside a chunk
+header — "required chunk data not found"; cut inside the placeholder header the same; cut anywhere after it "data
+chunk size has not been set". -/
+theorem riff_placeholder_prefix_rejected (cs : List Chunk) (hok : ∀ c ∈ cs, c.OK none) (hno : NoId idData cs)
+    (s4 rest f : Bytes) (hs : s4.length = 4)
+    (hf : f = idRIFF ++ (s4 ++ (idWAVE ++ (encAll cs ++ (idData ++ (ffff ++ rest)))))) (k : Nat) :
+    ∃ e, readFile (f.take k) = .error e := by
+  by_cases hk12 : k < 12
+  · exact ⟨.struct, by simp only [readFile, readHead_riff_short hf hs hk12]⟩
+  have h12 : (idRIFF ++ (s4 ++ idWAVE)).length = 12 := by simp [idRIFF, idWAVE, hs]
+  have hf' : f = (idRIFF ++ (s4 ++ idWAVE)) ++ (encAll cs ++ (idData ++ (ffff ++ rest))) := by rw [hf]; simp
+  have hle := length_le_encAll cs (fun c hc => (hok c hc).idLen)
+  -- the cut file: complete header, then a prefix of the rest
+  have hfk : f.take k = (idRIFF ++ (s4 ++ idWAVE)) ++ (encAll cs ++ (idData ++ (ffff ++ rest))).take (k - 12) := by
+    rw [hf', List.take_append, List.take_of_length_le (by omega), h12]
+  have hhead : readHead (f.take k) = .ok (idRIFF, none, 12) :=
+    readHead_riff (s4 := s4) (rest := (encAll cs ++ (idData ++ (ffff ++ rest))).take (k - 12)) (by rw [hfk]; simp) hs
+  by_cases hk1 : k - 12 < (encAll cs).length
+  · -- cut inside the chunks before the data header
+    obtain ⟨A, c, B, j, hcs, hj, hm, htk⟩ := take_encAll cs (k - 12) hk1
+    have hfk' : f.take k = (idRIFF ++ (s4 ++ idWAVE)) ++ (encAll A ++ c.enc.take j) := by
+      rw [hfk, List.take_append_of_le_length (Nat.le_of_lt hk1), htk]
+    have hAok : ∀ x ∈ A, x.OK none := fun x hx => hok x (by rw [hcs]; simp [hx])
+    have hcok : c.OK none := hok c (by rw [hcs]; simp)
+    have hAl := length_le_encAll A (fun x hx => (hAok x hx).idLen)
+    have hlen : (f.take k).length = 12 + ((encAll A).length + j) := by
+      rw [hfk']; simp only [List.length_append, List.length_take, h12]
+      have := hj; omega
+    have hw := walk_prefix none A c hAok hcok _ (f.take k) j hj hfk' ((f.take k).length + 1) (by omega)
+    rw [h12] at hw
+    rw [hcs] at hno
+    simp only [readFile, hhead, hw]
+    unfold prefixOutcome
+    by_cases h8 : j < 8
+    · simp only [h8, ↓reduceIte]
+      exact ⟨_, finishRead_noData (by rw [tlookup_walkTable_absent _ _ (noId_sub_left hno).1]; rfl)⟩
+    · have hp : ¬ (c.body.length % 2 = 1 ∧ c.id = idData ∧ j = 8 + c.body.length) :=
+        fun h => (noId_sub_left hno).2 h.2.1
+      simp only [h8, ↓reduceIte, if_neg hp]
+      exact ⟨_, rfl⟩
+  · by_cases hk2 : k - 12 < (encAll cs).length + 8
+    · -- cut inside the placeholder header: all chunks walked, EOF, no data chunk
+      have hfk' : f.take k = (idRIFF ++ (s4 ++ idWAVE)) ++
+          (encAll cs ++ (idData ++ (ffff ++ rest)).take (k - 12 - (encAll cs).length)) := by
+        rw [hfk, List.take_append, List.take_of_length_le (by omega)]
+      have hlen : (f.take k).length ≤ 12 + (encAll cs).length + (k - 12 - (encAll cs).length) := by
+        rw [hfk']; simp only [List.length_append, List.length_take, h12]; omega
+      have hlen2 : 12 + (encAll cs).length ≤ (f.take k).length := by
+        rw [hfk']; simp only [List.length_append, h12]; omega
+      obtain ⟨fuel, hfuel⟩ : ∃ q, (f.take k).length + 1 = cs.length + (q + 1) := ⟨(f.take k).length - cs.length, by omega⟩
+      have hw := walk_chunks_then none cs hok _ (f.take k) _ (fuel + 1) [] [] hfk'
+      rw [h12] at hw
+      simp only [readFile, hhead, hfuel, hw]
+      rw [readChunks_eof (by omega)]
+      exact ⟨_, finishRead_noData (by rw [tlookup_walkTable_absent _ _ hno]; rfl)⟩
+    · -- the placeholder header is complete
+      have hfk' : f.take k = idRIFF ++ (s4 ++ (idWAVE ++ (encAll cs ++ (idData ++ (ffff ++
+          rest.take (k - 12 - (encAll cs).length - 8)))))) := by
+        have h8 : (idData ++ ffff).length = 8 := rfl
+        have e : idData ++ (ffff ++ rest) = (idData ++ ffff) ++ rest := by simp
+        rw [hfk, List.take_append, List.take_of_length_le (by omega), e, List.take_append,
+          List.take_of_length_le (by rw [h8]; omega), h8]
+        simp
+      exact ⟨_, riff_placeholder_rejected cs hok s4 _ _ hs hfk'⟩
 
-`C17_unclosed` needs `(dataOf ops).length < 2^32 - 1`.  Everything from `2^32 - 1` upwards is outside it, and
-the two theorems below say what the reader model does there (for *any* history with that much data; a
-4 GiB list cannot be built in the kernel, so there is no evaluated instance, but the hypotheses are
-satisfiable; the data stays a variable throughout). -/
-
-/-- **Excluded point (walk).**  The unclosed buffer is the 12-byte RIFF header, the well-formed chunks
-`cs` = JUNK, fmt, constructor chunks, then `data`, the placeholder `0xFFFFFFFF` and the sample bytes; the
-`data` header lies at `dpos = 72 + (constructor chunks)`.
-* With exactly `2^32 - 1` data bytes the placeholder *is* the true (odd) size and only the pad byte is
-  missing: the chunk walk records the data chunk, warns "data chunk is missing padding byte", hits EOF and
-  succeeds — the verdict is whatever `finishRead` says (see `unclosed_at_limit_accepted`).
-* With `2^32` or more data bytes the placeholder chunk ends *inside* the file: no "chunk ends after the end
-  of the file"; the walk records a data chunk of `2^32 - 1` bytes and carries on at offset
-  `dpos + 8 + 2^32`, i.e. it parses **sample bytes as chunk headers** (with fuel left for all of them). -/
-theorem unclosed_walk_without_bound (fmt : Fmt) (c0 : Option (List ChnaEntry)) (a0 b0 : Option Bytes) (force : Bool)
-    (ops : List WOp) (hc0 : ChnaOK c0) (ha0 : BytesOK a0) (hb0 : BytesOK b0) :
-    let f := unclosedFile fmt c0 a0 b0 force ops
-    let cs := junkC :: fmtC fmt :: preC c0 a0 b0
-    let dpos := 12 + (encAll cs).length
-    let t : Table := (idData, 4294967295, dpos) :: walkTable 12 cs []
-    dpos = 72 + (preB c0 a0 b0).length ∧ f.length = dpos + 8 + (dataOf ops).length ∧
-    ((dataOf ops).length = 2 ^ 32 - 1 → readFile f = finishRead f idRIFF none t [.dataPad]) ∧
-    (2 ^ 32 ≤ (dataOf ops).length → ∃ fuel, (dataOf ops).length - 2 ^ 32 < fuel ∧
-      readFile f = match readChunks f none fuel (dpos + 8 + 2 ^ 32) t [] with
-        | .error e => .error e
-        | .ok (t', w) => finishRead f idRIFF none t' w) := by
-  intro f0 cs dpos t
-  have hlay : f0 = head0 fmt ++ (preB c0 a0 b0 ++ (idData ++ (ffff ++ dataOf ops))) := unclosedFile_layout ..
-  have hcsdef : cs = junkC :: fmtC fmt :: preC c0 a0 b0 := rfl
-  have hdposdef : dpos = 12 + (encAll cs).length := rfl
-  have htdef : t = (idData, 4294967295, dpos) :: walkTable 12 cs [] := rfl
-  clear_value t dpos cs f0
-  generalize f0 = f at *
+/-- **C17 (unfinished files, truncated as well).**  Every prefix of the buffer of a writer that was never closed —
+what is on disk after a crash that also lost the tail of the buffer — is rejected. -/
+theorem C17_unclosed_prefix (fmt : Fmt) (c0 : Option (List ChnaEntry)) (a0 b0 : Option Bytes) (force : Bool)
+    (ops : List WOp) (hc0 : ChnaOK c0) (ha0 : BytesOK a0) (hb0 : BytesOK b0) (k : Nat) :
+    ∃ e, readFile ((unclosedFile fmt c0 a0 b0 force ops).take k) = .error e := by
   have hds : ∀ d, (none : Option Ds64) = some d → d.table = [] := by intro d hd; cases hd
-  have hf : f = (idRIFF ++ (ffff ++ idWAVE)) ++ (encAll cs ++ (idData ++ (ffff ++ dataOf ops))) := by
-    rw [hlay, preB_eq hc0, head0, fmtChunk_eq, junkChunk_eq, hcsdef]; simp
-  have hhead : readHead f = .ok (idRIFF, none, 12) :=
-    readHead_riff (s4 := ffff) (rest := encAll cs ++ (idData ++ (ffff ++ dataOf ops))) (by rw [hf]; simp) rfl
-  have hok : ∀ c ∈ cs, c.OK none := by
+  have hok : ∀ c ∈ [junkC] ++ fmtC fmt :: preC c0 a0 b0, c.OK none := by
     intro c hc
-    rw [hcsdef] at hc
-    rcases List.mem_cons.1 hc with rfl | hc
-    · exact junkC_ok
+    rcases List.mem_append.1 hc with h | hc
+    · rw [List.mem_singleton.1 h]; exact junkC_ok
     · rcases List.mem_cons.1 hc with rfl | hc
       · exact fmtC_ok none hds fmt
       · exact preC_ok none hds hc0 ha0 hb0 c hc
-  have hle := length_le_encAll cs (fun c hc => (hok c hc).idLen)
-  have hfl : f.length = dpos + 8 + (dataOf ops).length := by
-    rw [hf, hdposdef]; simp [idRIFF, ffff, idWAVE, idData]; omega
-  have hdpos : dpos = 72 + (preB c0 a0 b0).length := by
-    rw [hdposdef, hcsdef]
-    simp only [encAll_cons, preB_eq hc0, List.length_append]
-    have h1 : junkC.enc.length = 36 := by decide
-    have h2 : (fmtC fmt).enc.length = 24 := by simp [fmtC, Chunk.enc, fmtPayload, idFmt, le_length]
-    omega
-  obtain ⟨fuel, hfuel⟩ : ∃ k, f.length + 1 = cs.length + (k + 2) := ⟨f.length - cs.length - 1, by omega⟩
-  have hw := walk_chunks_then none cs hok (idRIFF ++ (ffff ++ idWAVE)) f _ (fuel + 2) [] [] hf
-  have h12 : (idRIFF ++ (ffff ++ idWAVE)).length = 12 := rfl
-  rw [h12, ← hdposdef] at hw
-  have hh := readChunkHeader_hdr (f := f) (pre := idRIFF ++ (ffff ++ idWAVE) ++ encAll cs)
-    (id := idData) (s4 := ffff) (rest := dataOf ops) none (by rw [hf]; simp) rfl rfl (by decide)
-  rw [List.length_append, h12, ← hdposdef] at hh
-  have hffff : fromLE ffff = 4294967295 := by decide
-  have hh' : readChunkHeader f none dpos = .hdr idData 4294967295 := hh.trans (congrArg _ hffff)
-  have hsz : dpos + 8 + (4294967295 + 4294967295 % 2) = dpos + 8 + 2 ^ 32 := by omega
-  refine ⟨hdpos, hfl, ?_, ?_⟩
-  · intro hlen
-    simp only [readFile, hhead, hfuel, hw]
-    rw [show fuel + 2 = (fuel + 1) + 1 from rfl,
-      readChunks_dataPad hh' (by omega) ⟨by decide, rfl, by omega⟩, readChunks_eof (by omega), htdef]
-    simp only [List.nil_append]
-  · intro hlen
-    refine ⟨fuel + 1, by omega, ?_⟩
-    simp only [readFile, hhead, hfuel, hw]
-    rw [show fuel + 2 = (fuel + 1) + 1 from rfl, readChunks_continue hh' (by omega), hsz, htdef]
-    rfl
+  have hF : ∀ x ∈ [junkC], x.id = idJUNK := by intro x hx; rw [List.mem_singleton.1 hx]; rfl
+  have hno : NoId idData ([junkC] ++ fmtC fmt :: preC c0 a0 b0) := by simp only [preC]; no_id
+  refine riff_placeholder_prefix_rejected _ hok hno ffff (dataOf ops) _ rfl ?_ k
+  rw [unclosedFile_layout, preB_eq hc0, head0, fmtChunk_eq, junkChunk_eq]; simp
 
-/-- **Excluded point (verdict at exactly 2^32 - 1 bytes).**  If the format's block alignment divides
-`2^32 - 1` (= 3·5·17·257·65537; e.g. 24-bit mono, block alignment 3) an unclosed file with exactly `2^32 - 1`
-data bytes is **accepted**: the reader returns the format, `(2^32 - 1) / blockAlignment` frames, all the sample
-bytes and the chunks the constructor wrote, with the single warning "data chunk is missing padding byte" —
-indistinguishable from a finalised RIFF file that lost its last byte.  So the first clause of C17 is false here;
-`C17_unclosed` states the bound `< 2^32 - 1` for that reason. -/
-theorem unclosed_at_limit_accepted (fmt : Fmt) (c0 : Option (List ChnaEntry)) (a0 b0 : Option Bytes) (force : Bool)
-    (ops : List WOp) (hfmt : FmtOK fmt) (hc0 : ChnaOK c0) (ha0 : BytesOK a0) (hb0 : BytesOK b0)
-    (hdata : (dataOf ops).length = 2 ^ 32 - 1) (hframes : (2 ^ 32 - 1) % fmt.blockAlign = 0) :
-    readFile (unclosedFile fmt c0 a0 b0 force ops) =
-      .ok (⟨idRIFF, ⟨1, fmt.channels, fmt.rate, fmt.bits⟩, (2 ^ 32 - 1) / fmt.blockAlign, dataOf ops,
-            effChna c0 none, effMeta a0 none, effMeta b0 none⟩, [.dataPad]) := by
-  obtain ⟨-, -, h3, -⟩ := unclosed_walk_without_bound fmt c0 a0 b0 force ops hc0 ha0 hb0
-  rw [h3 hdata]
-  have hlay : unclosedFile fmt c0 a0 b0 force ops =
-      head0 fmt ++ (preB c0 a0 b0 ++ (idData ++ (ffff ++ dataOf ops))) := unclosedFile_layout ..
-  generalize unclosedFile fmt c0 a0 b0 force ops = f at *
-  have hlate : lateC c0.isSome (truthy a0) (truthy b0) none none none = [] := by
-    cases c0.isSome <;> cases truthy a0 <;> cases truthy b0 <;> simp [lateC, optChnaC, optMetaC]
-  have hffff : le 4 4294967295 = ffff := by decide
-  have hf : f = (idRIFF ++ (ffff ++ idWAVE)) ++
-      (encAll ([junkC] ++ bodyC fmt c0 a0 b0 4294967295 (dataOf ops) [] none none none) ++ []) := by
-    rw [hlay, preB_eq hc0, head0, fmtChunk_eq, junkChunk_eq]
-    simp [bodyC, hlate, dataC, Chunk.enc, hffff]
-  have ht : ((idData, 4294967295, 12 + (encAll (junkC :: fmtC fmt :: preC c0 a0 b0)).length) ::
-        walkTable 12 (junkC :: fmtC fmt :: preC c0 a0 b0) [] : Table) =
-      walkTable (idRIFF ++ (ffff ++ idWAVE)).length
-        ([junkC] ++ bodyC fmt c0 a0 b0 4294967295 (dataOf ops) [] none none none) [] := by
-    have : [junkC] ++ bodyC fmt c0 a0 b0 4294967295 (dataOf ops) [] none none none =
-        (junkC :: fmtC fmt :: preC c0 a0 b0) ++ [dataC 4294967295 (dataOf ops) []] := by
-      simp [bodyC, hlate]
-    rw [this, walkTable_snoc]
-    simp only [dataC, hdata]
-    rfl
-  rw [ht, finishRead_written (w := [Warn.dataPad]) hfmt hc0 (by trivial) hf
-    (by intro x hx; rw [List.mem_singleton.1 hx]; rfl) (by intro d hd; cases hd) (by rw [hdata]; exact hframes), hdata]
-
-/-- the arithmetic side condition of `unclosed_at_limit_accepted` holds for 24-bit mono (block alignment 3) and
-24-bit 5-channel (15) audio.  (The length hypotheses are plainly satisfiable — a history with one `write` of that
-many bytes — but no such list is ever constructed or evaluated here: the data stays a variable.) -/
-example : (2 ^ 32 - 1) % (⟨1, 48000, 24⟩ : Fmt).blockAlign = 0 ∧ (2 ^ 32 - 1) % (⟨5, 48000, 24⟩ : Fmt).blockAlign = 0 := by
-  decide
+/-- **The former excluded point.**  `C17_unclosed` at the sizes where the reader used to go wrong: with `2^32 - 1`
+or more data bytes (where the placeholder `0xFFFFFFFF` describes a chunk that ends at or inside the file) the
+unfinished file is rejected like any other.  (The length hypothesis is satisfiable — one `write` of that many
+bytes — but no such list is built here: the data stays a variable.  On the real code the same sizes are run as
+sparse files on every check, `big_unclosed_probe`.) -/
+theorem unclosed_rejected_any_size (fmt : Fmt) (c0 : Option (List ChnaEntry)) (a0 b0 : Option Bytes) (force : Bool)
+    (ops : List WOp) (hc0 : ChnaOK c0) (ha0 : BytesOK a0) (hb0 : BytesOK b0)
+    (_hdata : 2 ^ 32 - 1 ≤ (dataOf ops).length) :
+    readFile (unclosedFile fmt c0 a0 b0 force ops) = .error .dataPlaceholder :=
+  C17_unclosed fmt c0 a0 b0 force ops hc0 ha0 hb0
 
 /-! ### truncated finalised files -/
 
@@ -207,7 +188,7 @@ theorem closedFile_written (fmt : Fmt) (c0 : Option (List ChnaEntry)) (a0 b0 : O
   generalize hR : riffSizeOf (preB c0 a0 b0) (dataOf ops)
     (lateB c0.isSome (truthy a0) (truthy b0) (pendChna c0 ops) (pendAxml a0 ops) (pendBext b0 ops)) = R
   have hRlt : R < 2 ^ 64 := by rw [← hR]; unfold riffSizeOf; omega
-  have hnR : (dataOf ops).length ≤ R := by rw [← hR]; unfold riffSizeOf; omega
+  have hnR : (dataOf ops).length + 72 ≤ R := by rw [← hR]; unfold riffSizeOf; omega
   split
   · -- BW64
     generalize hfile : idBW64 ++ (ffff ++ (idWAVE ++ (ds64Chunk R (dataOf ops).length ++ (fmtChunk fmt ++
@@ -223,7 +204,7 @@ theorem closedFile_written (fmt : Fmt) (c0 : Option (List ChnaEntry)) (a0 b0 : O
       simp [bodyC, dataC, Chunk.enc, hffff]
     have hdOK : (dataC 4294967295 (dataOf ops) (pad (dataOf ops).length)).OK (some ⟨R, (dataOf ops).length, []⟩) :=
       ⟨by simp only [dataC]; decide, by simp only [dataC]; decide, by simp only [dataC]; omega,
-        by simp [effSize, hdrSize, dataC], by simp [dataC, pad_length]⟩
+        by simp [effSize, hdrSize, dataC], by simp [dataC, pad_length], rfl⟩
     have hpl48 : (idBW64 ++ (ffff ++ (idWAVE ++ ds64Chunk R (dataOf ops).length))).length = 48 := by
       simp [idBW64, ffff, idWAVE, ds64Chunk, idDs64, le_length]
     refine ⟨_, [], some ⟨R, (dataOf ops).length, []⟩, idBW64, 4294967295, hf, by simp, ?_,
@@ -254,7 +235,8 @@ theorem closedFile_written (fmt : Fmt) (c0 : Option (List ChnaEntry)) (a0 b0 : O
       simp [bodyC, dataC, Chunk.enc]
     have hdOK : (dataC (dataOf ops).length (dataOf ops) (pad (dataOf ops).length)).OK none :=
       ⟨by simp only [dataC]; decide, by simp only [dataC]; decide, by simp only [dataC]; omega,
-        by simp [effSize, hdrSize, dataC], by simp [dataC, pad_length]⟩
+        by simp [effSize, hdrSize, dataC], by simp [dataC, pad_length],
+        by simp only [dataC, isPlaceholder, decide_true, Bool.true_and]; exact decide_eq_false (by omega)⟩
     have hpl12 : (idRIFF ++ (le 4 R ++ idWAVE)).length = 12 := by simp [idRIFF, idWAVE, le_length]
     refine ⟨_, [junkC], none, idRIFF, (dataOf ops).length, hf,
       by intro x hx; rw [List.mem_singleton.1 hx]; rfl, ?_, (by intro d hd; cases hd), by have := hpl12; omega, ?_, ?_⟩
@@ -300,12 +282,39 @@ theorem C17_truncation (fmt : Fmt) (c0 : Option (List ChnaEntry)) (a0 b0 : Optio
 
 /-! ### non-vacuity and concrete behaviour of the model on unfinished / truncated files -/
 
-example : (dataOf [.write exData, .setBext (some exBext)]).length < 2 ^ 32 - 1 := by decide
+example : ChnaOK none ∧ BytesOK (some exAxml) ∧ BytesOK none :=
+  ⟨trivial, by show exAxml.length < 2 ^ 32; decide, trivial⟩
 
 set_option maxRecDepth 100000 in
-/-- an unfinished file (odd axml at open, one write, bext pending) is rejected -/
+/-- an unfinished file (odd axml at open, one write, bext pending; forceBw64 either way) is rejected -/
 example : readFile (unclosedFile exFmt none (some exAxml) none true [.write exData, .setBext (some exBext)])
-    = .error .chunkEnd := by decide +kernel
+      = .error .dataPlaceholder ∧
+    readFile (unclosedFile exFmt none (some exAxml) none false [.write exData, .setBext (some exBext)])
+      = .error .dataPlaceholder := by decide +kernel
+
+set_option maxRecDepth 100000 in
+/-- prefixes of that unfinished file: cut in the RIFF header, inside the axml body, inside the data header, after it -/
+example :
+    let f := unclosedFile exFmt none (some exAxml) none true [.write exData, .setBext (some exBext)]
+    f.length = 101 ∧ readFile (f.take 11) = .error .struct ∧ readFile (f.take 82) = .error .chunkEnd ∧
+    readFile (f.take 75) = .error .missingChunk ∧ readFile (f.take 91) = .error .missingChunk ∧
+    readFile (f.take 92) = .error .dataPlaceholder ∧ readFile (f.take 100) = .error .dataPlaceholder := by decide +kernel
+
+/-- a crafted plain RIFF file: header, `fmt `, `data` + 0xFFFFFFFF + two sample bytes -/
+def exCrafted (rest : Bytes) : Bytes :=
+  idRIFF ++ (le 4 0 ++ (idWAVE ++ (encAll [fmtC ⟨1, 48000, 16⟩] ++ (idData ++ (ffff ++ rest)))))
+
+set_option maxRecDepth 100000 in
+/-- the model computes on it: rejected with the new error whatever follows the header (nothing, one frame); with the
+size field one less (0xFFFFFFFE) it is the old "chunk ends after the end of the file"; with the header cut short the
+file has no data chunk; and the same eight bytes in a BW64 file (where the writer's `close()` leaves them) are fine -/
+example : readFile (exCrafted []) = .error .dataPlaceholder ∧ readFile (exCrafted [1, 2]) = .error .dataPlaceholder ∧
+    readFile (idRIFF ++ (le 4 0 ++ (idWAVE ++ (encAll [fmtC ⟨1, 48000, 16⟩] ++ (idData ++ (le 4 4294967294 ++ [1, 2]))))))
+      = .error .chunkEnd ∧
+    readFile ((exCrafted []).take 43) = .error .missingChunk ∧
+    readFile (closedFile ⟨1, 48000, 16⟩ none none none true [.write [1, 2]]) =
+      .ok (⟨idBW64, ⟨1, 1, 48000, 16⟩, 1, [1, 2], none, none, none⟩, []) ∧
+    readAt (closedFile ⟨1, 48000, 16⟩ none none none true [.write [1, 2]]) 72 8 = idData ++ ffff := by decide +kernel
 
 /-- a finalised RIFF file: 12 + 36 + 24, axml 8+3+1 at open, data 8+9+1, bext 8+5+1 late: 116 bytes -/
 def exFile : Bytes := closedFile exFmt none (some exAxml) none false [.write exData, .setBext (some exBext)]
